@@ -284,9 +284,17 @@ def o7(chk, repo):
                 chk.ok("O7", key, g.where, "renamed inputs %s in all %d valuations (up to inputs absent from the wrapped class)" % (sorted(set.union(*[r for _, r, _ in lst])), len(lst)))
 
 
+def o8(chk, repo, models):
+    """The (de)multiplexers are pure re-indexings: every output entry is assigned on every evaluation (= C03-R7)."""
+    from .c03 import r7
+
+    r7(chk, repo, models, rule="O8", only=("MuxSurfaceForces", "DemuxSurfaceMesh"), min_decided=1)
+
+
 def run(chk, repo, tier):
     o7(chk, repo)
     models = all_models(repo, chk)
+    o8(chk, repo, models)
     o1(chk, repo, models)
     o2(chk, repo, models)
     o2b(chk, repo, models)
